@@ -12,6 +12,7 @@ import DispensoVerif.Model.OpResult
 import DispensoVerif.Model.SmallVec
 import DispensoVerif.Model.OnceFn
 import DispensoVerif.Model.ConVec
+import DispensoVerif.Model.Arena
 
 /-! Handlers of the dvdriver line protocol. Core Lean only. -/
 namespace Driver
@@ -29,6 +30,7 @@ inductive Sess where
   | chaselev (C : Nat) (s : Conc.State (ChaseLev.proto C))
   | rwlock (s : Conc.State RWLock.proto)
   | threadid (s : Conc.State ThreadId.proto)
+  | arena (B : Nat) (s : Conc.State (Arena.proto B))
   | distrw (N : Nat) (s : Conc.State (DistRWLock.proto N))
 
 structure St where
@@ -37,6 +39,7 @@ structure St where
   svec : SmallVec.St := SmallVec.St.init 4
   oncefn : OnceFn.St := OnceFn.St.init
   convec : ConVec.St := ConVec.St.init
+  arena : Arena.Seq.St := Arena.Seq.St.init
 
 def St.init : St := {}
 
@@ -238,6 +241,37 @@ def convecH (st : St) (args : List String) : St × String :=
           | none => "reject")
   | _ => (st, "bad-op")
 
+/-- C37 arena (sequential layer): `arenaseq reset` | `arenaseq <op> <args…>`;
+    reply `size cap nbuf ret lastBuf items…` -/
+def arenaH (st : St) (args : List String) : St × String :=
+  match args with
+  | ["reset"] => ({ st with arena := Arena.Seq.St.init }, "ok")
+  | opn :: rest =>
+    match ints rest with
+    | none => (st, "bad-op")
+    | some ns =>
+      let n (i : Int) : Nat := i.toNat
+      let op? : Option Arena.Seq.Op := match opn, ns with
+        | "mk", [m, i] => some (.mk (n m) (n i))
+        | "growBy", [o, d] => some (.growBy (n o) (n d))
+        | "set", [o, i, v] => some (.set (n o) (n i) v)
+        | "copyCtor", [a] => some (.copyCtor (n a))
+        | "moveCtor", [a] => some (.moveCtor (n a))
+        | "copyAssign", [a, b] => some (.copyAssign (n a) (n b))
+        | "moveAssign", [a, b] => some (.moveAssign (n a) (n b))
+        | "swap", [a, b] => some (.swap (n a) (n b))
+        | "destroy", [o] => some (.destroy (n o))
+        | "query", [o] => some (.query (n o))
+        | _, _ => none
+      match op? with
+      | none => (st, "bad-op")
+      | some op =>
+        let (s', o) := Arena.Seq.step st.arena op
+        ({ st with arena := s' }, match o with
+          | some r => s!"{r.size} {r.cap} {r.nbuf} {r.ret} {r.lastBuf}" ++ (r.items.foldl (fun acc x => acc ++ " " ++ toString x) "")
+          | none => "reject")
+  | _ => (st, "bad-op")
+
 /-- `trace begin <protocol> <params…>` starts a session; `T <event…>` feeds one trace line -/
 def traceBegin (args : List String) : Sess × String :=
   match args with
@@ -247,6 +281,10 @@ def traceBegin (args : List String) : Sess × String :=
     | _ => (.failed, "bad-params")
   | "asyncreq" :: _ => (.asyncreq AsyncReq.init, "ok")
   | "rwlock" :: _ => (.rwlock RWLock.init, "ok")
+  | "arena" :: rest =>
+    match nats rest with
+    | some [B] => (.arena B (Arena.init B), "ok")
+    | _ => (.failed, "bad-params")
   | "threadid" :: rest =>
     match ints rest with
     | some [v] => (.threadid (ThreadId.init v), "ok")
@@ -285,6 +323,10 @@ def traceLine (sess : Sess) (toks : List String) : Sess × String :=
     match Trace.acceptLine ThreadId.binding s toks with
     | .ok s' => (.threadid s', "ok")
     | .error e => (.failed, "MISMATCH " ++ e)
+  | .arena B s =>
+    match Trace.acceptLine (Arena.binding B) s toks with
+    | .ok s' => (.arena B s', "ok")
+    | .error e => (.failed, "MISMATCH " ++ e)
   | .rwlock s =>
     match Trace.acceptLine RWLock.binding s toks with
     | .ok s' => (.rwlock s', "ok")
@@ -313,6 +355,7 @@ def dispatch (st : St) : List String → St × String
   | "svec" :: rest => svecH st rest
   | "oncefn" :: rest => oncefnH st rest
   | "convec" :: rest => convecH st rest
+  | "arenaseq" :: rest => arenaH st rest
   | "trace" :: "begin" :: rest =>
     let (s, r) := traceBegin rest
     ({ st with sess := s }, r)
